@@ -27,6 +27,7 @@ RULE = (
     ' Also: the exotic names of C12; iterations aborted by an exception from any callback; nodes with 300-2500 children written with to_file.'
     ' Also: positional constructor form, GC under a long-lived exporter, really overlapping iterations, non-UTF-8 locale child interpreter.'
     ' Also: maxlevels that are not whole numbers and falsy predicate objects, judged by one consistent reading of node and edge lines.'
+    ' Rounds 11-14: tall trunks, round line counts, exotic options, predicates changed mid-iteration, exporter.node re-pointed.'
 )
 ASSUMPTIONS = [
     "declared = reference pre-order of C06 for the same filter_/stop/maxlevel; expected edge lines = indent + id(parent) + edgefunc + id(child) for every parent-child pair with both ends declared, compared as a multiset",
